@@ -24,7 +24,7 @@ LEVEL = "fault_enumeration"
 SHARDS = {"quick": 8, "thorough": 16}
 RULE = (
     "Hypothesis fmodel programs (plain layout, gfortran-validated on a sample, optionally with a valid abstract-type "
-    "module appended) x all 15 defect classes x every applicable seeding position of the program (enumerated).  "
+    "module appended) x all 16 defect classes x every applicable seeding position of the program (enumerated).  "
     "Non-trivial = (program, class, position) triples whose seeding position is nested at depth >= 2; distinct by triple."
 )
 ASSUMPTIONS = [
@@ -76,6 +76,7 @@ CLASSES = {
     "procedure-in-type-or-block": (1, r'Invalid parent for "SUBROUTINE" declaration'),
     "deferred-unimplemented": (1, r'Deferred procedure "zz_d" not implemented'),
     "line-too-long": (2, r'Line length exceeds "max_line_length" \(200\)'),
+    "not-imported-in-interface": (1, r'Object "{name}" not imported in interface'),
 }
 # other severity-1 messages that a seeded defect of the class legitimately entails
 CONSEQ = {
@@ -195,11 +196,24 @@ def seed_positions(prog, r):
                         if host:
                             e = sorted(host, key=lambda x: x.id)[0]
                             out.append(("masks-parent", variant(ins(spec_at, f"integer :: {e.name}")), name, [spec_at], e.name, s.depth + 1))
-                # 5 type defined in the project but not accessible here
+                # 16 interface body (no host association without IMPORT) naming a type of the host: one type of which the
+                #    host chain itself declares a variable, one of which it does not
                 acc = sc.accessible()
+                # (the diagnostic is documented for names that are public entities of a module; spelled with their own name)
+                tys = sorted([(n, t) for n, t in acc.items() if t.kind == "type" and t.scope is not None and t.scope.kind == "module" and n == t.name.lower()
+                              and (t.vis == "public" or (t.vis is None and not t.scope.default_private))], key=lambda x: (x[0], x[1].id))
+                declared_here = set()
+                s_ = sc
+                while s_ is not None:
+                    declared_here |= {id(e.typ[1]) for e in s_.declared.values() if isinstance(e.typ, tuple)}
+                    s_ = s_.parent
+                picks_t = [x for x in tys if id(x[1]) in declared_here][:1] + [x for x in tys if id(x[1]) not in declared_here][:1]
+                for n_, t_ in picks_t:
+                    blk = ["interface", "subroutine zz_cb(zz_a)", f"type({n_}) :: zz_a", "end subroutine zz_cb", "end interface"]
+                    out.append(("not-imported-in-interface", variant(ins(spec_at, blk)), name, [spec_at + 2], n_, s.depth + 2))
+                # 5 type defined in the project but not accessible here
                 cands = [t for t in prog.ents if t.kind == "type" and t.name.lower() not in acc and t.scope is not None and t.scope.kind == "module"
                          and not fws.leak_through_private_module(sc, t)
-                         and not fws.hidden_by_rename_list(sc, t.name, t)  # known C05 finding: the hidden name still resolves
                          and not (t.vis == "private" or (t.vis is None and t.scope.default_private))]
                 if cands:
                     t = sorted(cands, key=lambda x: x.id)[0]
